@@ -78,6 +78,13 @@ func (h *connIDManager) add(f *wire.NewConnectionIDFrame) error {
 			ErrorMessage: "received NEW_CONNECTION_ID frame but zero-length connection IDs are in use",
 		}
 	}
+	// A retransmitted NEW_CONNECTION_ID frame for a connection ID that is currently used for path probing:
+	// The connection ID is already known, and it must neither be retired nor queued a second time.
+	for _, entry := range h.pathProbing {
+		if entry.SequenceNumber == f.SequenceNumber {
+			return nil
+		}
+	}
 	// If the NEW_CONNECTION_ID frame is reordered, such that its sequence number is smaller than the currently active
 	// connection ID or if it was already retired, send the RETIRE_CONNECTION_ID frame immediately.
 	if f.SequenceNumber < max(h.activeSequenceNumber, h.highestProbingID) || f.SequenceNumber < h.highestRetired {
